@@ -39,7 +39,7 @@ def module_program(rng):
         L = ["print(\"body of %s\");" % nm, "var name = \"%s\";" % nm, "var counter = 0;", "var secret_%s = [\"%s\"];" % (nm, nm)]
         L.append("fn bump() { counter = counter + 1; return [name, counter]; }")
         L.append("fn who() { return name; }")
-        L.append("fn sees_builtins() { return [type(1), String.from(2), [3].len(), TypeError]; }")
+        L.append("fn sees_builtins() { return [type(1), String.from(2), [3].len(), TypeError, type(clock), type(type)]; }")
         L.append("fn leak_check() { try { return main_only; } catch e { return type(e); } }")
         deps = []
         for dep in edges[nm]:
@@ -58,6 +58,10 @@ def module_program(rng):
         L.append("print(\"end of %s\");" % nm)
         mods.append((paths[nm], "\n".join(L) + "\n"))
     M = ["var main_only = \"main global\";", "var name = \"main\";", "var counter = 100;"]
+    if r.chance(35):
+        # the importer rebinds built-in names in its own globals: modules must still see the built-ins
+        M.append(r.choice(["fn type(x) { return \"main's type\"; }", "var clock = \"not a function\";",
+                           "var String = nil;", "var TypeError = 7;", "fn type(x) { return 1; } var clock = nil;"]))
     bound_names = {}
     order = r.shuffle(names)
     for nm in order[:r.range(1, n)]:
